@@ -33,6 +33,9 @@ type Obligation struct {
 	Raw     string
 	File    string
 	Canary  bool
+	Uses    map[string]bool
+	Clause  string // name of the contract clause the goal comes from
+	Variant string
 	// concrete failing input found by an engine that evaluates rather than proves
 	Input    interface{}
 	Observed string
@@ -365,7 +368,7 @@ func (fx *FnExec) checkPost(st *State, res []Val) {
 			fx.bindFail(c, err)
 			continue
 		}
-		fx.emit(st, &Obligation{Kind: "post", Name: c.Name, Props: c.Props, Goal: f})
+		fx.emit(st, &Obligation{Kind: "post", Name: c.Name, Props: c.Props, Goal: f, Clause: c.Name})
 	}
 	// under an exact panic condition the function must not return normally
 	for _, c := range append(append([]*Clause{}, fx.fc.Panics...), fx.fc.Raises...) {
@@ -389,6 +392,12 @@ func (fx *FnExec) emit(st *State, o *Obligation) {
 	o.Inputs = fx.inputs
 	if len(o.Props) == 0 {
 		o.Props = fx.props
+	}
+	if fx.fc != nil && len(fx.fc.Uses) > 0 {
+		o.Uses = map[string]bool{}
+		for _, u := range fx.fc.Uses {
+			o.Uses[u] = true
+		}
 	}
 	fx.eng.obligs = append(fx.eng.obligs, o)
 }
@@ -681,7 +690,7 @@ func (fx *FnExec) checkInvariants(st *State, lp *Loop, kind string) {
 			fx.bindFail(c, err)
 			continue
 		}
-		fx.emit(st, &Obligation{Kind: kind, Name: fmt.Sprintf("loop%d.%s", lp.ordinal, c.Name), Props: c.Props, Goal: f})
+		fx.emit(st, &Obligation{Kind: kind, Name: fmt.Sprintf("loop%d.%s", lp.ordinal, c.Name), Props: c.Props, Goal: f, Clause: c.Name})
 	}
 }
 
@@ -692,7 +701,9 @@ func (fx *FnExec) assumeInvariants(st *State, lp *Loop) {
 		if err != nil {
 			continue
 		}
-		st.assume(f)
+		if f != "" && f != "true" {
+			st.add("(assert " + f + ") ;@inv:" + c.Name)
+		}
 	}
 }
 
@@ -1021,7 +1032,7 @@ func (fx *FnExec) loadAt(st *State, l *Loc) Val {
 		return Val{T: app(si.Fields[l.Field], pv.T), S: srt, GT: l.ET}
 	case LIndex:
 		comp := eng.regSlice(l.ET)
-		return Val{T: sel(sel(eng.heapGet(st, comp), app("sl_arr", l.Slice.T)), "(+ "+app("sl_off", l.Slice.T)+" "+l.Idx+")"), S: srt, GT: l.ET}
+		return Val{T: sel(sel(eng.heapGet(st, comp), app("sl_arr", l.Slice.T)), app("idx", app("sl_off", l.Slice.T), l.Idx)), S: srt, GT: l.ET}
 	}
 	panic("bad loc")
 }
@@ -1050,7 +1061,7 @@ func (fx *FnExec) storeAt(st *State, l *Loc, v Val) {
 		comp := eng.regSlice(l.ET)
 		h := eng.heapGet(st, comp)
 		a := app("sl_arr", l.Slice.T)
-		eng.heapSet(st, comp, store(h, a, store(sel(h, a), "(+ "+app("sl_off", l.Slice.T)+" "+l.Idx+")", v.T)))
+		eng.heapSet(st, comp, store(h, a, store(sel(h, a), app("idx", app("sl_off", l.Slice.T), l.Idx), v.T)))
 	}
 }
 
